@@ -21,6 +21,7 @@ def family():
     from mc.flo import families as F
     yield from F.fam_cond_aux()
     yield from F.fam_cond_aux_fork()
+    yield from F.fam_cond_aux_three()
     for label, prog, meta in F.fam_restart():
         if "condaux" in label:
             yield label, prog, meta
